@@ -1249,7 +1249,10 @@ async fn sctp_liveness(s: &mut Sink, live: &mut sctpx::Live, next_tsn: u32, sid:
 }
 
 /// inert chunk types for the walker stream: whatever their length, they do not change association state
-const INERT_TYPES: &[u8] = &[4, 5, 7, 9, 10, 11, 1, 2, 14, 63, 64, 127, 129, 191, 193, 255];
+const INERT_TYPES: &[u8] = &[4, 5, 7, 9, 10, 11, 1, 2, 15, 63, 64, 127, 129, 191, 193, 255];
+/// chunk types that legitimately end the association (ABORT, SHUTDOWN-ACK, SHUTDOWN-COMPLETE): kept out of the
+/// streams that need a living endpoint, exercised in the closing stage
+const CLOSING_TYPES: &[u8] = &[6, 8, 14];
 
 async fn sctp_streams(s: &mut Sink, rng: &mut Rng, thorough: bool) {
     use sctpx::*;
@@ -1288,14 +1291,14 @@ async fn sctp_streams(s: &mut Sink, rng: &mut Rng, thorough: bool) {
         let l = rng.below(40) as usize;
         let mut b = rng.bytes(l);
         // random bytes, but type bytes can land anywhere: restrict every byte value to inert types / small lengths
-        for x in b.iter_mut() { *x = if rng.chance(1, 3) { *rng.pick(INERT_TYPES) } else { (*x) & 0x0F }; }
+        for x in b.iter_mut() { *x = if rng.chance(1, 3) { *rng.pick(INERT_TYPES) } else { (*x) & 0x0F }; if CLOSING_TYPES.contains(x) { *x = 4; } }
         areas.push((b, "random inert-typed bytes".into(), "random"));
     }
     let p0 = panics();
     for (area, what, kind) in areas {
         // a walk can only dispatch types that occur as bytes of the area: make sure none is state-changing
-        let safe = area.iter().all(|b| INERT_TYPES.contains(b) || *b < 0x10 && ![0u8, 3, 6, 8].contains(b)) || area.len() > 5000 || kind == "corpus";
-        let area: Vec<u8> = if safe { area } else { area.iter().map(|b| if [0u8, 3, 6, 8, 130, 192].contains(b) { 4 } else { *b }).collect() };
+        let safe = area.iter().all(|b| INERT_TYPES.contains(b) || *b < 0x10 && ![0u8, 3, 6, 8, 14].contains(b)) || area.len() > 5000 || kind == "corpus";
+        let area: Vec<u8> = if safe { area } else { area.iter().map(|b| if [0u8, 3, 6, 8, 14, 130, 192].contains(b) { 4 } else { *b }).collect() };
         let pp = panics();
         let r = live.exchange(vec![raw_packet(tag, &area)]).await;
         match r {
@@ -1434,7 +1437,7 @@ async fn sctp_streams(s: &mut Sink, rng: &mut Rng, thorough: bool) {
     drop(live);
 
     // ---- (3) random packets of every chunk type (oracle only), established and pre-handshake; closing chunks last
-    for (round, client) in [(0, true), (1, false)] {
+    for (round, client) in [(0, true), (1, false), (2, true)] {
         let mut live = Live::start(UutOpts { sctp_client: client, channels: vec![(0, cfgch.clone())], config: quiet(), ..Default::default() }).await;
         let tag = live.u.uut_tag;
         let n = if thorough { 3000 } else { 500 };
@@ -1452,10 +1455,21 @@ async fn sctp_streams(s: &mut Sink, rng: &mut Rng, thorough: bool) {
                 a[off + 2] = (cl >> 8) as u8; a[off + 3] = cl as u8;
                 off += (cl + 3) & !3;
             }
-            for x in a.iter_mut() { if *x == 6 || *x == 8 { *x = 4; } }
+            for x in a.iter_mut() { if CLOSING_TYPES.contains(x) { *x = 4; } }
             maxlen = maxlen.max(a.len());
-            let r = live.exchange(vec![raw_packet(tag, &a)]).await;
-            if r.is_none() { sctp_fail(s, T_SCTP_WALK, "random packet, all chunk types", format!("LIVENESS/PANIC: endpoint stopped answering after this packet (panics {}): {}", panics() - pp, last_panic()), &a); dead = true; break; }
+            let r = live.exchange(vec![raw_packet(live.u.uut_tag, &a)]).await;
+            if r.is_none() {
+                // a chunk may legitimately close the association (the close is then visible to the application): not a hang
+                match live.u.sctp.close_reason() {
+                    Some(reason) if reason.starts_with("REMOTE_") && panics() == pp => {
+                        s.out.push(Case { term: "-".into(), desc: json!({"target": tname(T_SCTP_WALK), "what": "random packet closed the association (visible close reason)", "close_reason": reason, "input_hex": hex(&a)}),
+                            oracle_fail: None, known: None, nontrivial: true, key: format!("sctp|closed|{}|{}", round, i), kind: "live".into() });
+                        live = Live::start(UutOpts { sctp_client: client, channels: vec![(0, cfgch.clone())], config: quiet(), ..Default::default() }).await;
+                        continue;
+                    }
+                    _ => { sctp_fail(s, T_SCTP_WALK, "random packet, all chunk types", format!("LIVENESS/PANIC: endpoint stopped answering after this packet (panics {}, close reason {:?}): {}", panics() - pp, live.u.sctp.close_reason(), last_panic()), &a); dead = true; break; }
+                }
+            }
             if panics() > pp { sctp_fail(s, T_SCTP_WALK, "random packet, all chunk types", format!("PANIC in a task while handling the packet: {}", last_panic()), &a); dead = true; break; }
             s.count(T_SCTP_WALK, V_OK);
         }
@@ -1467,11 +1481,12 @@ async fn sctp_streams(s: &mut Sink, rng: &mut Rng, thorough: bool) {
             if r.is_none() { sctp_fail(s, T_SCTP_WALK, "after the random stream", "LIVENESS: endpoint no longer answers HEARTBEAT".into(), &[]); }
             // closing: ABORT must not panic either
             let pp = panics();
-            live.u.inject_raw(raw_packet(tag, &chunk_bytes(6, 0, &rng.bytes(7))));
+            let closer = CLOSING_TYPES[round as usize % CLOSING_TYPES.len()];
+            live.u.inject_raw(raw_packet(live.u.uut_tag, &chunk_bytes(closer, 0, &rng.bytes(7))));
             tokio::time::sleep(Duration::from_millis(30)).await;
-            for _ in 0..20 { let l = rng.below(64) as usize; live.u.inject_raw(raw_packet(tag, &rng.bytes(l))); }
+            for _ in 0..20 { let l = rng.below(64) as usize; live.u.inject_raw(raw_packet(live.u.uut_tag, &rng.bytes(l))); }
             tokio::time::sleep(Duration::from_millis(30)).await;
-            s.out.push(Case { term: "-".into(), desc: json!({"target": tname(T_SCTP_WALK), "what": "ABORT then random packets on the closed association"}),
+            s.out.push(Case { term: "-".into(), desc: json!({"target": tname(T_SCTP_WALK), "what": "ABORT / SHUTDOWN-ACK / SHUTDOWN-COMPLETE then random packets on the closed association", "closing_chunk_type": closer, "close_reason": live.u.sctp.close_reason()}),
                 oracle_fail: if panics() > pp { Some(format!("PANIC after ABORT: {}", last_panic())) } else { None }, known: None, nontrivial: true, key: format!("sctp|closing|{}", round), kind: "live".into() });
         }
     }
@@ -2078,6 +2093,24 @@ fn main() {
     if want("pure") { let mut r = Rng::new(args.seed ^ 0x1111); pure_streams(&mut s, &mut r, thorough); cand_streams(&mut s, &mut r, thorough); }
     times.insert("pure".into(), json!(t0.elapsed().as_secs_f64()));
     let rt = tokio::runtime::Builder::new_multi_thread().worker_threads(4).enable_all().build().unwrap();
+    if let Ok(f) = std::env::var("C07_REPLAY_SCTP") {
+        // replay one raw chunk area on a fresh established endpoint: prints what the endpoint emitted
+        rt.block_on(async {
+            use sctpx::*;
+            let hexs = std::fs::read_to_string(&f).unwrap();
+            let bytes: Vec<u8> = (0..hexs.trim().len() / 2).map(|i| u8::from_str_radix(&hexs[2 * i..2 * i + 2], 16).unwrap()).collect();
+            let cfgch = rustrtc::transports::sctp::DataChannelConfig { label: "x".into(), negotiated: Some(0), ordered: true, ..Default::default() };
+            for client in [true, false] {
+                let mut live = Live::start(UutOpts { sctp_client: client, channels: vec![(0, cfgch.clone())], ..Default::default() }).await;
+                let t0 = Instant::now();
+                let r = live.exchange(vec![raw_packet(live.u.uut_tag, &bytes)]).await;
+                println!("client={} answered={} in {:?} chunks={:?} panics={} {}", client, r.is_some(), t0.elapsed(), r.map(|c| c.iter().map(|x| (x.ty, x.value.len())).collect::<Vec<_>>()), panics(), last_panic());
+                let r = live.exchange(vec![]).await;
+                println!("  second exchange answered={}", r.is_some());
+            }
+        });
+        return;
+    }
     rt.block_on(async {
         let t = Instant::now();
         if want("sdp") { let mut r = Rng::new(args.seed ^ 0x2222); sdp_streams(&mut s, &mut r, thorough).await; }
